@@ -438,8 +438,8 @@ Fixpoint run_handler (fuel : nat) (script : list N) (r : rstate) (w : world) : r
       let data := take n rest in
       let rest' := drop n rest in
       if negb (rwriteable r) then run_handler f rest' r (w_ev w [6; 99])
-      else if rlock r then
-        (* StreamWriter::poll_write first takes the output mutex; Request.lock still holds it (a reply flush that was left
+      else if rlock r && negb (len data =? 0) then
+        (* (an empty write returns at once without touching the lock.)  StreamWriter::poll_write first takes the output mutex; Request.lock still holds it (a reply flush that was left
            unfinished: Pending and abandoned, or failed — "keep lock even in the Err case"): the writer waits for ever *)
         Halt ODeadlock w
       else
